@@ -139,6 +139,10 @@ def run_pipeline(tier, only=None):
     for dr in tv["drift"]:
         for k in dr[3]:
             drift_kinds[k] = drift_kinds.get(k, 0) + 1
+    failed = [dict(stack=stack_name(byid[i]), inner=byid[i]["inner"], size=x["size"], op=x["op"], mtu=x["mtu"], err=x["err"],
+                   detail=x.get("detail", "")) for i, e in events.items() for x in e["cases"]
+              if x["size"] <= x["mtu"] and x["err"] in ("ctx", "other")]
+    stats["failed_samples"] = failed[:6]
     stats.update(stacks=len(cases), cases=ncases, nontrivial=nontrivial, events=tv["events"], drift=len(tv["drift"]),
                  drift_kinds=drift_kinds,
                  drift_samples=[dict(stack=stack_name(byid[x[2]]), inner=byid[x[2]]["inner"], what=x[3]) for x in tv["drift"][:4]],
@@ -155,6 +159,9 @@ def check(pid, tier, replay=None):
         with open(replay) as f:
             only = [json.load(f)["payload"]["stack"]]
     stats, violations = run_pipeline(tier, only)
+    if not replay and stats["nontrivial"] < stats["cases"] // 4:
+        raise core.Inconclusive("vacuous run: only %d of %d cases were delivered or refused with the MTU error"
+                                % (stats["nontrivial"], stats["cases"]))
     mine = [core.Violation(pid, key, what, core.write_replay(pid, key, payload)) for key, what, payload in violations]
     if stats["drift"]:
         print("DRIFT component=Stack stacks=%d kinds=%s (model and code disagree, or an accepted payload was not delivered; no "
@@ -166,7 +173,8 @@ def check(pid, tier, replay=None):
              "MTU error",
         samples=stats["samples"], stacks=stats["stacks"], model_checking=stats["mc"],
         states=sum(v["states"] for v in stats["mc"].values()), transitions=sum(v["transitions"] for v in stats["mc"].values()),
-        traces_validated_against_impl=stats["stacks"], drift_stacks=stats["drift"], drift_kinds=stats["drift_kinds"], exhaustive=False,
+        traces_validated_against_impl=stats["stacks"], drift_stacks=stats["drift"], drift_kinds=stats["drift_kinds"],
+        failed_in_range=stats["failed_samples"], exhaustive=False,
         explanation="stacks and boundary sizes are enumerated by TLC from Stack.tla; each is executed on the real layers and judged "
                     "by StackTrace.tla against the MTU() read from the real top swarm")
     core.write_evidence(pid, tier, "exploration", coverage,
